@@ -27,12 +27,17 @@ META = {
                   'reader positioned at or before it.  Simulated behaviours of the same spec are executed on the real '
                   'code with each goroutine parked at the gate named by its pc and released in the order of the '
                   'behaviour; each real step and the final quiescent state are re-judged by TLC.  A stress run with '
-                  'real schedules (also with -race) records call/return events which TLC judges as well.',
+                  'real schedules (also with -race) records call/return events which TLC judges as well.  Reader '
+                  'creation is two steps in the specification (HW snapshot | decision + construction) interleaved with '
+                  'everything else; on the real code thousands of readers are created at HW-1..HW+2 while '
+                  'SetHighWatermark and Append run (spin barrier), each drained afterwards, each creation judged by TLC.',
     'level_note': 'Bounds: design check <= 4 appends, 2 readers, segment capacity 1-2 records, <= 2 read-only '
                   'toggles; replayed behaviours <= 6 appends / 70 steps.  Single appender.  Truncation under live '
                   'readers is covered at API granularity (lock-step: MC_CommitLogRd, <= 16 steps), not at gate '
                   'granularity; retention/compaction while reading is C08/C09; record content is judged by C01.  Stress findings are reported '
-                  'only after reproduction through the gates (otherwise exit 2).',
+                  'only after reproduction through the gates (otherwise exit 2); creation-race findings after a second '
+                  'execution of the same rounds shows the same failure (otherwise exit 2).  The window between the two '
+                  'steps of a creation is crossed by real schedules only (no gate inside newReaderCommitted).',
     'design_ref': 'DESIGN.md section 6/C03',
 }
 
@@ -424,9 +429,54 @@ def stress_rounds(rng, n, msgs):
     return out
 
 
-def execute_stress(rounds, d, race, timeout=900):
-    stim = os.path.join(d, 'stress.json')
-    trace = os.path.join(d, 'strace-%s.ndjson' % ('race' if race else 'plain'))
+def create_rounds(rng, n, iterations):
+    """creation rounds of the stress driver: readers are created at HW-1 .. HW+2 while SetHighWatermark (and every
+    other time an Append) runs, 2 creations per iteration; see v3CreateRound"""
+    return [{'id': 5000 + i, 'steps': [],
+             'cfg': {'kind': 'create', 'seed': rng.randrange(1 << 30), 'cap': rng.choice([2, 3, 5, 50]),
+                     'iterations': iterations}} for i in range(n)]
+
+
+def creation_campaign(rep, rng, n, iterations):
+    """(c') readers created while the HW moves: newReaderCommitted is two steps in Reader.tla (DoNewReader = the HW
+    snapshot | RNew = decision + construction) and has no gate between them, so the interleavings come from real
+    schedules (spin barrier, thousands of creations).  The observation is exact (requested offset, offsets handed
+    out to a sequential drain afterwards, HW samples) and judged by TLC (Trace_ReaderEv: Cre).  A violation is
+    reported when a second, independent execution of the same rounds shows the same check failing again;
+    once only => inconclusive."""
+    rounds = create_rounds(rng, n, iterations)
+    with core.scratch('c03c') as d:
+        trace = execute_stress(rounds, d, False, tag='create')
+        res, bad, evs = judge_stress(rounds, trace)
+        cre = [e for e in evs if e['a'] == 'Cre']
+        hist = {}
+        for e in cre:
+            k = 'HW%+d' % (e['s'] - e['h0']) if e['s'] != e['h0'] else 'HW'
+            hist[k] = hist.get(k, 0) + 1
+        rep.cov['creation_rounds'] = {'rounds': n, 'creations_concurrent_with_SetHighWatermark': len(cre),
+                                      'requested_offset_relative_to_HW_before': hist,
+                                      'violating_creations': len({(t, ln) for t, ln, a, nm in bad})}
+        if bad:
+            names = sorted({nm for t, ln, a, nm in bad})
+            trace2 = execute_stress(rounds, d, False, tag='create2')
+            res2, bad2, evs2 = judge_stress(rounds, trace2)
+            again = sorted({nm for t, ln, a, nm in bad2} & set(names))
+            if not again:
+                raise core.Inconclusive('creation rounds: %s failed on %d line(s) but not in a second execution of '
+                                        'the same rounds' % (names, len(bad)))
+            for nm in again:
+                t, ln, a, _ = min(x for x in bad if x[3] == nm)
+                rep.classify('C03|%s|%s|stress-create' % (nm, a),
+                             'reader created while the HW moves (real schedule, %d of %d creations, seen again in a second '
+                             'execution: %d): first failing line %d of round %d check %s'
+                             % (len({(x[0], x[1]) for x in bad}), len(cre), len({(x[0], x[1]) for x in bad2}), ln, t, nm),
+                             {'kind': 'create', 'rounds': rounds})
+    return len(cre), res['validated']
+
+
+def execute_stress(rounds, d, race, timeout=900, tag=''):
+    stim = os.path.join(d, 'stress%s.json' % tag)
+    trace = os.path.join(d, 'strace-%s%s.ndjson' % ('race' if race else 'plain', tag))
     core.write_json(stim, {'behaviours': rounds})
     rc, out, wall = core.go_test(PKG, '^TestVerifReaderStress$', {'VERIF_STIMULI': stim, 'VERIF_TRACE_OUT': trace},
                                  timeout=timeout, subs=['c03'], race=race)
@@ -484,6 +534,12 @@ def run(rep, tier, seed, replay):
                 for kind, tid, line, action, name in res['fails']:
                     if kind == 'P':
                         rep.classify('C03|%s|%s|subscriber' % (name, action), 'subscriber level line %d' % line, obj)
+            elif obj.get('kind') == 'create':
+                trace = execute_stress(obj['rounds'], d, False, tag='create')
+                res, bad, evs = judge_stress(obj['rounds'], trace)
+                for nm in sorted({x[3] for x in bad}):
+                    t, ln, a, _ = min(x for x in bad if x[3] == nm)
+                    rep.classify('C03|%s|%s|stress-create' % (nm, a), 'creation rounds: line %d of round %d' % (ln, t), obj)
             elif obj.get('kind') == 'stress':
                 trace = execute_stress(obj['rounds'], d, race=False)
                 res, bad, evs = judge_stress(obj['rounds'], trace)
@@ -520,6 +576,15 @@ def run(rep, tier, seed, replay):
     rep.add_design('MC_CommitLogRd(readers across truncation)', res)
     if res['violated']:
         raise core.Inconclusive('the design check of CommitLog.tla with the reader mix fails (%s)' % res['violated'])
+    # defective variant of one model decision (GUIDE 9.5): newReaderCommitted loads the HW a second time after the
+    # decision "wait for the next message" (NewLoads = 2).  TLC must find the behaviour in which that matters
+    # (NewReader(HW+1) | SetHW | rest of NewReader | SetHW | read: the reader's first message is beyond its position);
+    # it is the scenario family the creation rounds of the stress driver execute on the real code
+    res = _check('MC_Reader.tla', 'MC_Reader_twoload.cfg', timeout=600)
+    rep.add_design('MC_Reader(variant: second HW load in NewReader)', res, expect_ok=False)
+    rep.cov['variant_two_hw_loads_found'] = bool(res['violated'])
+    if not res['violated']:
+        raise core.Inconclusive('the defective model variant (two HW loads in NewReader) was not found by TLC')
     if thorough:
         # the unrepaired split (CAS first, list append later) as a seeded defect of the model: TLC must find it
         res = _check('MC_Reader.tla', 'MC_Reader_seeded.cfg', timeout=1200)
@@ -555,6 +620,9 @@ def run(rep, tier, seed, replay):
     rep.cov['traces_validated_against_impl'] += len(sb)
     rep.cov['trace_lines_validated'] += sres['validated']
     rep.cov['distinct_nontrivial'] += len({core.sha(b['steps']) for b in sb if b['id'] in sfeat})
+    # 5a. readers created while the HW moves (real schedules, spin barrier)
+    n_cre, cre_lines = creation_campaign(rep, rng, *((3, 2000) if not thorough else (12, 5000)))
+    rep.cov['trace_lines_validated'] += cre_lines
     # 5. stress with real schedules (plain and with the race detector)
     n_rounds = 8 if not thorough else 60
     msgs = 250 if not thorough else 600
@@ -577,13 +645,13 @@ def run(rep, tier, seed, replay):
                 stress_bad.append({'race': race, 'round': rounds[tid - 1], 'line': line, 'action': action, 'check': name})
     rep.cov['stress_events_judged'] = n_events
     rep.cov['stress_rounds'] = n_rounds + max(4, n_rounds // 2)
-    if stress_bad and not bad:
+    if stress_bad and not bad and not rep.violations:
         # a stress finding counts only after reproduction through the gates
         more, tr2, feats2, bad2 = gated_campaign(rep, tier, seed + 7919, num * 4, depth)
         if not bad2:
             raise core.Inconclusive('stress run shows %s (%s) but it could not be reproduced through the gates: %s'
                                     % (stress_bad[0]['check'], stress_bad[0]['action'], json.dumps(stress_bad[0])[:600]))
-    rep.cov['evaluations'] = len(behaviours) + rep.cov['stress_rounds']
+    rep.cov['evaluations'] = len(behaviours) + rep.cov['stress_rounds'] + n_cre
     rep.cov['rule'] = ('behaviours = TLC simulation of MC_Reader (seeded; both split variants) + %d directed race-window '
                        'schedules, each replayed 1:1 through the gates; non-trivial = the recorded real behaviour '
                        'crossed at least one race window (HW moved between a reader\'s HW load and its registration or '
